@@ -190,3 +190,17 @@ Proof.
          (G_BuildAuthURL_is_model up wd fw fc sg sp relay built)))).
 Qed.
 Print Assumptions C14_source_exported_wrappers_are_the_model.
+
+(* the composed outbound source (P_PipelineOut.v): BuildAuthURL = the translated buildAuthURLFromDocument applied to what the
+   translated BuildAuthRequestDocument (GenSign.v over GenBuild.v) returns — equal to the composition of the models *)
+From V Require Import Time Xml Build GenPreludeB GenPreludeSign GenBuild GenSign P_PipelineOut.
+Theorem C14_source_BuildAuthURL_composed :
+  forall sign_el url_parse write_doc fl_write fl_close sign (sc : sign_cfg) (rs : rsp) now id relay,
+    pm_bind (G_BuildAuthRequestDocument sign_el sc now id)
+            (fun d => G_BuildAuthURL url_parse write_doc fl_write fl_close sign rs relay d)
+    = PVal (do doc <- (if Build.b_sign_authn_requests (sc_b sc) then sign_el (Build.build_authn_request (sc_b sc) id now)
+                       else Ok (Build.build_authn_request (sc_b sc) id now));
+            url_of fl_write fl_close (url_parse (rsp_sso_url rs)) (write_doc doc)
+              (fun parsed => build_auth_url_from_document sign (rsp_cfg rs) parsed relay)).
+Proof. exact source_BuildAuthURL_composed. Qed.
+Print Assumptions C14_source_BuildAuthURL_composed.
